@@ -362,54 +362,234 @@ theorem leAx_trans (P : Nat → Pt) (axis : Nat) (a b c : Nat) : leAx P axis a b
 theorem leAx_total (P : Nat → Pt) (axis : Nat) (a b : Nat) : (leAx P axis a b || leAx P axis b a) = true := by
   simp only [leAx, Bool.or_eq_true, decide_eq_true_eq]; exact le_total _ _
 
+/-! numpy vocabulary lemmas -/
+
+theorem extract_cons (b : Bool) (m : List Bool) (x : Nat) (xs : List Nat) :
+    extract (b :: m) (x :: xs) = if b then x :: extract m xs else extract m xs := by
+  cases b <;> simp [extract, List.filter_cons]
+
+theorem extract_perm : ∀ (m : List Bool) (xs : List Nat), m.length = xs.length →
+    (extract m xs ++ extract (maskNot m) xs).Perm xs
+  | [], [], _ => by simp [extract, maskNot]
+  | [], _ :: _, h => by simp at h
+  | _ :: _, [], h => by simp at h
+  | b :: m, x :: xs, h => by
+    have ih := extract_perm m xs (by simpa using h)
+    cases b
+    · simp only [maskNot, List.map_cons, Bool.not_false, extract_cons, if_true, Bool.false_eq_true, if_false]
+      exact List.perm_middle.trans (ih.cons x)
+    · simp only [maskNot, List.map_cons, Bool.not_true, extract_cons, if_true, Bool.false_eq_true, if_false,
+        List.cons_append]
+      exact ih.cons x
+
+theorem mem_extract {i : Nat} : ∀ {m : List Bool} {xs : List Nat},
+    i ∈ extract m xs ↔ ∃ p : Nat, xs[p]? = some i ∧ m[p]? = some true
+  | [], xs => by simp [extract]
+  | _ :: _, [] => by simp [extract]
+  | b :: m, x :: xs => by
+    rw [extract_cons]
+    constructor
+    · intro h
+      cases b
+      · simp only [Bool.false_eq_true, if_false] at h
+        obtain ⟨p, h1, h2⟩ := mem_extract.mp h
+        exact ⟨p + 1, by simpa using h1, by simpa using h2⟩
+      · simp only [if_true, List.mem_cons] at h
+        rcases h with rfl | h
+        · exact ⟨0, by simp, by simp⟩
+        · obtain ⟨p, h1, h2⟩ := mem_extract.mp h
+          exact ⟨p + 1, by simpa using h1, by simpa using h2⟩
+    · rintro ⟨p, h1, h2⟩
+      cases p with
+      | zero =>
+        simp only [List.getElem?_cons_zero, Option.some.injEq] at h1 h2
+        subst h1; subst h2; simp
+      | succ p =>
+        simp only [List.getElem?_cons_succ] at h1 h2
+        have := mem_extract.mpr ⟨p, h1, h2⟩
+        cases b <;> simp [this]
+
+theorem maskSet_cons (m : List Bool) (p : Nat) (ps : List Nat) : maskSet m (p :: ps) = maskSet (m.set p true) ps := rfl
+
+theorem maskSet_length : ∀ (pos : List Nat) (m : List Bool), (maskSet m pos).length = m.length
+  | [], _ => rfl
+  | p :: ps, m => by rw [maskSet_cons, maskSet_length ps, List.length_set]
+
+theorem maskSet_get {j : Nat} : ∀ (pos : List Nat) (m : List Bool),
+    (maskSet m pos)[j]? = some true ↔ (j < m.length ∧ (m[j]? = some true ∨ j ∈ pos))
+  | [], m => by
+    simp only [maskSet, List.foldl_nil, List.not_mem_nil, or_false]
+    constructor
+    · intro h
+      exact ⟨(List.getElem?_eq_some_iff.mp h).1, h⟩
+    · exact fun h => h.2
+  | p :: ps, m => by
+    rw [maskSet_cons, maskSet_get ps, List.length_set, List.getElem?_set]
+    by_cases hpj : p = j
+    · subst hpj
+      constructor
+      · rintro ⟨hl, _⟩; exact ⟨hl, Or.inr (List.mem_cons_self ..)⟩
+      · rintro ⟨hl, _⟩; exact ⟨hl, Or.inl (by simp [hl])⟩
+    · simp only [if_neg hpj, List.mem_cons]
+      constructor
+      · rintro ⟨hl, h | h⟩
+        · exact ⟨hl, Or.inl h⟩
+        · exact ⟨hl, Or.inr (Or.inr h)⟩
+      · rintro ⟨hl, h | h | h⟩
+        · exact ⟨hl, Or.inl h⟩
+        · exact absurd h.symm hpj
+        · exact ⟨hl, Or.inr h⟩
+
+theorem zerosBool_get (n j : Nat) : (zerosBool n)[j]? ≠ some true := by
+  simp [zerosBool, List.getElem?_replicate]
+
+theorem extract_leMask (P : Nat → Pt) (axis : Nat) (pv : Rat) : ∀ (idx : List Nat),
+    extract (leMask (takeAx P idx axis) pv) idx = idx.filter (fun i => decide (coord (P i) axis ≤ pv)) ∧
+    extract (maskNot (leMask (takeAx P idx axis) pv)) idx = idx.filter (fun i => !decide (coord (P i) axis ≤ pv))
+  | [] => by simp [extract, takeAx, leMask, maskNot]
+  | i :: is => by
+    have ih := extract_leMask P axis pv is
+    simp only [takeAx, leMask, maskNot, List.map_cons] at ih ⊢
+    rw [extract_cons, extract_cons, ih.1, ih.2, List.filter_cons, List.filter_cons]
+    exact ⟨rfl, rfl⟩
+
+theorem argsort_perm (xs : List Rat) : (argsortStable xs).Perm (List.range xs.length) := List.mergeSort_perm _ _
+
+theorem argsort_sorted (xs : List Rat) :
+    (argsortStable xs).Pairwise (fun a b => xs.getD a 0 ≤ xs.getD b 0) := by
+  have := List.pairwise_mergeSort (le := fun a b => decide (xs.getD a 0 ≤ xs.getD b 0))
+    (by intro a b c; simp only [decide_eq_true_eq]; exact le_trans)
+    (by intro a b; simp only [Bool.or_eq_true, decide_eq_true_eq]; exact le_total _ _) (List.range xs.length)
+  simpa [argsortStable] using this
+
 /-- the repaired split is sound and makes progress, for EVERY pivot value -/
 theorem splitIdx_ok (P : Nat → Pt) (axis : Nat) (pv : Rat) (idx : List Nat) (h2 : 2 ≤ idx.length) :
     SplitOK P axis idx (splitIdx P axis pv idx) := by
+  have hxs : (takeAx P idx axis).length = idx.length := by simp [takeAx]
+  have hget : ∀ p i, idx[p]? = some i → (takeAx P idx axis).getD p 0 = coord (P i) axis := by
+    intro p i hp
+    simp [takeAx, List.getD_eq_getElem?_getD, List.getElem?_map, hp]
   unfold splitIdx
   simp only
   split
-  · -- fallback: median-rank split of the sorted indices
-    have hperm := List.mergeSort_perm idx (leAx P axis)
-    have hlen : (idx.mergeSort (leAx P axis)).length = idx.length := List.length_mergeSort _
-    have hsorted := List.pairwise_mergeSort (leAx_trans P axis) (leAx_total P axis) idx
-    generalize idx.mergeSort (leAx P axis) = s at hperm hlen hsorted
-    have hh1 : 1 ≤ s.length / 2 := by omega
-    have hsplit : s.take (s.length / 2) ++ s.drop (s.length / 2) = s := List.take_append_drop _ _
-    have hA : (s.take (s.length / 2)).length = s.length / 2 := by rw [List.length_take]; omega
-    cases hw : (s.take (s.length / 2)).getLast? with
-    | none =>
-      have := List.getLast?_eq_none_iff.mp hw
-      rw [this] at hA; simp at hA; omega
-    | some w =>
-      have hwmem : w ∈ s.take (s.length / 2) := List.mem_of_getLast? hw
-      obtain ⟨ys, hys⟩ := List.getLast?_eq_some_iff.mp hw
-      have hpwA : (s.take (s.length / 2)).Pairwise (fun a b => leAx P axis a b = true) :=
-        List.Pairwise.sublist (List.take_sublist _ _) hsorted
-      have hpw : (s.take (s.length / 2) ++ s.drop (s.length / 2)).Pairwise (fun a b => leAx P axis a b = true) := by
-        rw [hsplit]; exact hsorted
-      simp only
-      refine ⟨?_, ?_, ?_, ?_, ?_⟩
-      · simp only; rw [hsplit]; exact hperm
-      · intro i hi
-        simp only at hi ⊢
-        rw [hys] at hi hpwA
-        rcases List.mem_append.mp hi with hi | hi
-        · have := (List.pairwise_append.mp hpwA).2.2 i hi w (by simp)
-          simpa [leAx] using this
-        · simp at hi; subst hi; exact le_refl _
-      · intro i hi
-        simp only at hi ⊢
-        have := (List.pairwise_append.mp hpw).2.2 w hwmem i hi
-        simpa [leAx] using this
-      · simp only; rw [hA]; omega
-      · simp only; rw [List.length_drop]; omega
+  · -- fallback: the mask of the `n/2` positions of smallest coordinate
+    generalize hs : argsortStable (takeAx P idx axis) = s
+    have hperm : s.Perm (List.range idx.length) := by rw [← hs, ← hxs]; exact argsort_perm _
+    have hsorted : s.Pairwise (fun a b => (takeAx P idx axis).getD a 0 ≤ (takeAx P idx axis).getD b 0) := by
+      rw [← hs]; exact argsort_sorted _
+    have hlen : s.length = idx.length := by simpa using hperm.length_eq
+    have hnodup : s.Nodup := hperm.nodup_iff.mpr List.nodup_range
+    rw [hxs]
+    set h := idx.length / 2 with hh
+    have hh1 : 1 ≤ h := by omega
+    have hhn : h < idx.length := by omega
+    set m' := maskSet (zerosBool idx.length) (s.take h) with hm'
+    have hm'len : m'.length = idx.length := by rw [hm', maskSet_length]; simp [zerosBool]
+    have hm'get : ∀ j, m'[j]? = some true ↔ j < idx.length ∧ j ∈ s.take h := by
+      intro j
+      rw [hm', maskSet_get]
+      simp only [zerosBool, List.length_replicate]
+      constructor
+      · rintro ⟨hl, hz | hz⟩
+        · exact absurd hz (zerosBool_get _ _)
+        · exact ⟨hl, hz⟩
+      · rintro ⟨hl, hz⟩; exact ⟨hl, Or.inr hz⟩
+    have hsrange : ∀ a (ha : a < s.length), s[a] < idx.length := by
+      intro a ha
+      have : s[a] ∈ List.range idx.length := hperm.mem_iff.mp (List.getElem_mem ha)
+      simpa using this
+    have hw : s.getD (h - 1) 0 = s[h - 1]'(by omega) := by
+      rw [List.getD_eq_getElem?_getD, List.getElem?_eq_getElem (by omega)]; rfl
+    have hpw := List.pairwise_iff_getElem.mp hsorted
+    have hperm' := extract_perm m' idx hm'len
+    -- membership in the two halves, by position
+    have hless : ∀ i ∈ extract m' idx, coord (P i) axis ≤ (takeAx P idx axis).getD (s.getD (h - 1) 0) 0 := by
+      intro i hi
+      obtain ⟨p, hp1, hp2⟩ := mem_extract.mp hi
+      obtain ⟨_, hpt⟩ := (hm'get p).mp hp2
+      obtain ⟨a, ha, hap⟩ := List.mem_iff_getElem.mp hpt
+      rw [List.length_take] at ha
+      rw [List.getElem_take] at hap
+      rw [← hget p i hp1, hw, ← hap]
+      by_cases hlt : a < h - 1
+      · exact hpw a (h - 1) (by omega) (by omega) hlt
+      · have : a = h - 1 := by omega
+        subst this; exact le_refl _
+    have hmore : ∀ i ∈ extract (maskNot m') idx, (takeAx P idx axis).getD (s.getD (h - 1) 0) 0 ≤ coord (P i) axis := by
+      intro i hi
+      obtain ⟨p, hp1, hp2⟩ := mem_extract.mp hi
+      have hpl : p < idx.length := (List.getElem?_eq_some_iff.mp hp1).1
+      have hnot : ¬ (p ∈ s.take h) := by
+        intro hin
+        have := (hm'get p).mpr ⟨hpl, hin⟩
+        simp only [maskNot, List.getElem?_map, this, Option.map_some, Bool.not_true, Option.some.injEq] at hp2
+        exact absurd hp2 (by decide)
+      have hps : p ∈ s := hperm.mem_iff.mpr (by simpa using hpl)
+      obtain ⟨b, hb, hbp⟩ := List.mem_iff_getElem.mp hps
+      have hbh : h ≤ b := by
+        by_contra hc
+        apply hnot
+        rw [List.mem_iff_getElem]
+        exact ⟨b, by rw [List.length_take]; omega, by rw [List.getElem_take]; exact hbp⟩
+      rw [← hget p i hp1, hw, ← hbp]
+      exact hpw (h - 1) b (by omega) hb (by omega)
+    have hne1 : 0 < (extract m' idx).length := by
+      have h0 : s[0]'(by omega) < idx.length := hsrange 0 (by omega)
+      have hin : s[0]'(by omega) ∈ s.take h := by
+        rw [List.mem_iff_getElem]
+        exact ⟨0, by rw [List.length_take]; omega, by rw [List.getElem_take]⟩
+      have hm := (hm'get (s[0]'(by omega))).mpr ⟨h0, hin⟩
+      have : idx[s[0]'(by omega)]'h0 ∈ extract m' idx :=
+        mem_extract.mpr ⟨s[0]'(by omega), List.getElem?_eq_getElem h0, hm⟩
+      exact List.length_pos_of_mem this
+    have hne2 : 0 < (extract (maskNot m') idx).length := by
+      have h0 : s[h]'(by omega) < idx.length := hsrange h (by omega)
+      have hnin : ¬ (s[h]'(by omega) ∈ s.take h) := by
+        intro hin
+        obtain ⟨a, ha, hap⟩ := List.mem_iff_getElem.mp hin
+        rw [List.length_take] at ha
+        rw [List.getElem_take] at hap
+        have := (List.getElem_inj hnodup).mp hap
+        omega
+      have hm : m'[s[h]'(by omega)]? = some false := by
+        have hl : s[h]'(by omega) < m'.length := by omega
+        rw [List.getElem?_eq_getElem hl]
+        cases hv : m'[s[h]'(by omega)]'hl
+        · rfl
+        · exfalso
+          apply hnin
+          have : m'[s[h]'(by omega)]? = some true := by rw [List.getElem?_eq_getElem hl, hv]
+          exact ((hm'get _).mp this).2
+      have : idx[s[h]'(by omega)]'h0 ∈ extract (maskNot m') idx :=
+        mem_extract.mpr ⟨s[h]'(by omega), List.getElem?_eq_getElem h0, by simp [maskNot, List.getElem?_map, hm]⟩
+      exact List.length_pos_of_mem this
+    have hsum := hperm'.length_eq
+    rw [List.length_append] at hsum
+    exact ⟨hperm', hless, hmore, by simp only; omega, by simp only; omega⟩
   · rename_i hne
-    simp only [Bool.or_eq_true, List.isEmpty_iff, not_or] at hne
+    rw [(extract_leMask P axis pv idx).1, (extract_leMask P axis pv idx).2]
+    have hne' : ¬ ((idx.filter (fun i => !decide (coord (P i) axis ≤ pv))).isEmpty ||
+        (idx.filter (fun i => decide (coord (P i) axis ≤ pv))).isEmpty) = true := by
+      intro hc
+      apply hne
+      simp only [Bool.or_eq_true, List.isEmpty_iff, List.filter_eq_nil_iff] at hc
+      simp only [maskAll, maskAny, leMask, takeAx, Bool.or_eq_true, List.all_eq_true, List.any_eq_true,
+        Bool.not_eq_true', List.any_eq_false, List.mem_map, id]
+      rcases hc with hc | hc
+      · left
+        rintro b ⟨x, ⟨i, hi, rfl⟩, rfl⟩
+        have := hc i hi
+        simpa using this
+      · right
+        rintro b ⟨x, ⟨i, hi, rfl⟩, rfl⟩
+        have := hc i hi
+        simpa using this
+    simp only [Bool.or_eq_true, List.isEmpty_iff, not_or] at hne'
     have hperm := List.filter_append_perm (fun i => decide (coord (P i) axis ≤ pv)) idx
     have hlen := hperm.length_eq
     rw [List.length_append] at hlen
-    have h1 : 0 < (idx.filter (fun i => decide (coord (P i) axis ≤ pv))).length := List.length_pos_iff.mpr hne.2
-    have h2' : 0 < (idx.filter (fun i => !decide (coord (P i) axis ≤ pv))).length := List.length_pos_iff.mpr hne.1
+    have h1 : 0 < (idx.filter (fun i => decide (coord (P i) axis ≤ pv))).length := List.length_pos_iff.mpr hne'.2
+    have h2' : 0 < (idx.filter (fun i => !decide (coord (P i) axis ≤ pv))).length := List.length_pos_iff.mpr hne'.1
     refine ⟨hperm, ?_, ?_, ?_, ?_⟩
     · intro i hi
       simpa using (List.mem_filter.mp hi).2
